@@ -136,6 +136,31 @@ class EditHooks(Hooks):
         if fn in EDITS and not out.ok:
             if fn == 'Spectrum.crop' and len(pre.crop(a[0], a[1]).wave) == 0:
                 return      # empty-result crops are outside the statement
+            # an edit whose arguments are valid for the live pre-state must be carried out
+            valid = None
+            if not pre.wave:
+                valid = None
+            elif fn == 'Spectrum.crop':
+                valid = True
+            elif fn == 'Spectrum.pad' and len(pre.wave) >= 2 and k.get('mode', 'constant') in ('constant', 'edge'):
+                e = [float(x) for x in a[0]]
+                valid = 0 < e[0] < pre.wave[0] and e[1] > pre.wave[-1]
+            elif fn == 'Spectrum.trim':
+                valid = bool(pre.value) and max(pre.value) > 0
+            elif fn == 'Spectrum.to':
+                valid = a[0] in ('m', 'um', 'nm', 'angstrom')
+            elif fn == 'Spectrum.append' and 'other' in self.pre:
+                o = self.pre['other']
+                valid = o.unit == pre.unit and bool(o.wave) and bool(pre.wave) and o.wave[0] > pre.wave[-1] and MS(o.wave, o.value).wellformed()
+            elif fn == 'Spectrum.resample':
+                g = np.asarray(a[0], dtype=float).ravel()
+                valid = (g.size >= 2 and np.all(g > 0) and np.all(np.diff(g) > 0) and k.get('waveunit', 'nm') in ('m', 'um', 'nm', 'angstrom')
+                         and k.get('method', 'linear') in ('linear', 'quadratic', 'cubic') and len(pre.wave) >= 4)
+            if valid:
+                # Not a violation: the statement constrains what an edit may leave behind, it does not promise that a
+                # valid edit is accepted (e.g. append refuses any strictly-following spectrum of a different length,
+                # leaving the object intact).  Counted so that the evidence shows how often it happens.
+                it.probe('valid_edit_refused:' + fn.split('.')[1])
             it.probe('check:refusal_atomic')
             if not post.same(pre, rtol=0):
                 it.violate('C15.retain', {'call': fn, 'what': 'refused-edit-changed-object'},
